@@ -10,6 +10,7 @@
   For EVERY text, chunk size, start offset and per-line function.
 -/
 import AL.Lemmas.Layout
+import AL.Lemmas.CallSplit
 namespace AL.Properties.C14
 open AL AL.Impl AL.Gen AL.Lemmas
 
